@@ -52,7 +52,7 @@ ENGINE = {
 ASSUME_ENGINE = [
     "the reference model (harness/eng/model.go) encodes the documented semantics correctly; it was written from the docs and cross-validated on >10^5 judgements",
     "observation happens at the public API only; internal states between operations are not inspected",
-    "histories are generated, not enumerated: bounded length (150-600 ops), <= ~150 live entities, 20 component types plus up to 236 filler types",
+    "histories are generated, not enumerated: bounded length (150-600 ops), <= ~150 live entities, 21 component types plus up to 235 filler types",
     "Go runtime, compiler and (where used) race detector / checkptr / ASan are trusted",
 ]
 
@@ -96,6 +96,29 @@ def plan(prop, tier, seed, avoid):
                              args=["-seed", str(seed + 17), "-shard", str(sh), "-nshards", "8", "-cases", str(cases), "-pairs", "100"]))
         rule = (f"histories generated by profile 'churn' (see C01 for the scheme) plus dump/load round trips of churn worlds, 40% of them with the "
                 f"dump used as a checkpoint (source world mutated between dump and load); {spec['rule_extra']}")
+        return dict(jobs=jobs, rule=rule, assumptions=ASSUME_ENGINE)
+    if prop == "C03":
+        # second job group: every case starts with the scripted method matrix of one typed tuple (all FilterN/QueryN methods of that
+        # arity, Batch(rel...) followed by two overlapping queries of the same filter object with different per-query targets, ...)
+        spec = ENGINE[prop]
+        jobs = engine_jobs(prop, tier, seed, avoid)
+        spec2 = dict(spec, flags=spec["flags"] + ["-matrix"], quick=dict(plain=570), thorough=dict(plain=22800))
+        jobs += engine_jobs(prop, tier, seed + 3, avoid, spec2, None, "matrix:")
+        rule = (f"histories generated by profile '{spec['profile']}' (see C01 for the scheme); job group 2 ('matrix:'): each history is preceded by "
+                f"the scripted method matrix of one typed tuple (case index mod number of tuples); {spec['rule_extra']}")
+        return dict(jobs=jobs, rule=rule, assumptions=ASSUME_ENGINE)
+    if prop == "C14":
+        # second job group: a second *typed* world with different component IDs executes every call with the same
+        # world-independent argument objects (relation lists built with Rel/RelIdx are shared between the two worlds)
+        spec = ENGINE[prop]
+        jobs = engine_jobs(prop, tier, seed, avoid)
+        spec2 = dict(spec, flags=[("shared" if f == "unsafe" else f) for f in spec["flags"]],
+                     quick=dict(plain=855), thorough=dict(plain=28500))
+        jobs += engine_jobs(prop, tier, seed + 5, avoid, spec2, None, "shared:")
+        rule = (f"histories generated by profile 'batch' (see C01 for the scheme), each preceded by the scripted method matrix of one typed tuple; "
+                f"job group 1: every op also executed through the ID-based API on a twin world; job group 2 ('shared:'): every op also executed "
+                f"through the same typed path on a second world with different component IDs, both worlds using the same relation argument "
+                f"lists (built once with Rel/RelIdx); {spec['rule_extra']}")
         return dict(jobs=jobs, rule=rule, assumptions=ASSUME_ENGINE)
     if prop in ENGINE:
         spec = ENGINE[prop]
